@@ -228,12 +228,20 @@ def check_bph(chk) -> None:
         mem = repo.enum_members(CM, en)
         ok = set(mem) == {f"_{i}" for i in range(10)} and all(isinstance(v, ast.Constant) and v.value == f"{k[1:]}{suffix}" for k, v in mem.items())
         chk.expect(ok, "bph-enum-total", f"src/rnapolis/common.py {en}", f"{en} has members _0.._9 valued '<digit>{suffix}'", f"{en} members are not _0.._9 with values '<digit>{suffix}': {en}[f'_{{class}}'] can raise KeyError or mislabel", f"common:{en}:members")
+    from sa.consteval import NotConst
+
     try:
         c11e.check_bph_table(chk, fi, sp, Folder(repo, AN).fold)
         return
     except (c11e.NotReadable, c11e.SX.TooManyPaths) as ex:
         chk.ok("reading", fi.where, f"detect_bph_br_classification: fact-level reading not possible ({str(ex)[:100]}); if-ladder reading used")
-    _bph_ladder(chk, fi, sp)
+    except NotConst as ex:
+        chk.error("bph-class-table", fi.where, f"the donor table of tertiary.py does not fold to a constant ({str(ex)[:100]}): the classifier cannot be evaluated per (base, donor)")
+        return
+    try:
+        _bph_ladder(chk, fi, sp)
+    except NotConst as ex:
+        chk.error("bph-class-table", fi.where, f"the donor table of tertiary.py does not fold to a constant ({str(ex)[:100]})")
 
 
 def _bph_ladder(chk, fi, sp) -> None:
@@ -377,6 +385,8 @@ def _emission(chk, fi, fm, loop) -> None:
             chk.ok("sorted-emission", fi.site(site), "base pairs are emitted from sorted(base_base_pairs)")
         elif norm(it) in ("base_base_pairs", "set(base_base_pairs)", "list(base_base_pairs)", "reversed(base_base_pairs)"):
             chk.violation("sorted-emission", fi.site(site), f"base pairs are emitted by iterating `{norm(it)}`, not sorted(base_base_pairs): the order of the list follows the contact counting order", K(fi, "bp-emission"), found=norm(it))
+        elif isinstance(it, ast.Call) and astq.callee_name(it) == "sorted" and len(it.args) == 1 and norm(it.args[0]) == "base_base_pairs" and any(k.arg == "key" for k in it.keywords):
+            c11e.check_sort_key(chk, fi, it, "sorted-emission", "base pairs")
         else:
             chk.error("sorted-emission", fi.site(site), f"emission source `{norm(it)}` not recognised")
         want = f"BasePair(Residue({a}.label, {a}.auth), Residue({b}.label, {b}.auth), {l}, detect_saenger({a}, {b}, {l}))"
